@@ -1,4 +1,164 @@
+import Autobean.Model.Refuse
+import Autobean.Properties.C07
+/-!
+# C19 — a refused operation leaves the document exactly as it was
+
+The refusing operations are written in the statement order of the Python in a state monad whose raise keeps
+the state reached so far.  `refused_unchanged_*`: whenever the model raises, the state it returns is the state
+it started from.  `reuse_refused`: a node that is not the whole of its store is always refused by `detach`.
+The witnesses show that the orders *before* the `fix:` commits did not have the property (so the theorems are
+about the order of statements, not true by construction).  The store-level refusal ("already in a store") is
+`C07.spliceCore_rejects_foreign`.
+-/
 namespace Autobean.C19
-/-- placeholder until the model for this property lands (the check then audits the real theorems) -/
-theorem placeholder_true : True := trivial
+open Autobean.Refuse
+
+theorem reusable_all_free : ∀ (seen : List Nat) (vals : List Donor), reusable seen vals = true →
+    ∀ d ∈ vals, d.attached = false := by
+  intro seen vals
+  induction vals generalizing seen with
+  | nil => intro _ d hd; cases hd
+  | cons v vs ih =>
+    intro h d hd
+    simp only [reusable, Bool.and_eq_true, Bool.not_eq_true'] at h
+    rcases List.mem_cons.1 hd with rfl | hd
+    · exact h.1.1
+    · exact ih _ h.2 d hd
+
+/-- After a successful batch validation no `detach` of the batch can raise. -/
+theorem detachAll_ok {σ : Type} (vals : List Donor) (h : ∀ d ∈ vals, d.attached = false) (s : σ) :
+    detachAll vals s = (.ok (), s) := by
+  induction vals with
+  | nil => rfl
+  | cons v vs ih =>
+    have hv : v.attached = false := h v (by simp)
+    have h1 : detach (σ := σ) v s = (.ok (), s) := by simp [detach, hv, pure]
+    rw [detachAll, bind_ok h1]
+    exact ih (fun d hd => h d (by simp [hd]))
+
+theorem checkReusable_ok {σ : Type} (vals : List Donor) (s : σ) (hr : reusable [] vals = true) :
+    checkReusable vals s = (.ok (), s) := by simp [checkReusable, hr, pure]
+
+theorem checkReusable_err {σ : Type} (vals : List Donor) (s : σ) (hr : ¬ reusable [] vals = true) :
+    checkReusable vals s = (.error "ValueError:reuse", s) := by simp [checkReusable, hr, raiseE]
+
+/-- **Slice assignment / extend.** If the call raises, the document is exactly what it was. -/
+theorem refused_unchanged_setSlice {σ : Type} (del : σ → σ) (ins : List Donor → σ → σ) (vals : List Donor)
+    (s s' : σ) (e : String) (h : setSlice del ins vals s = (.error e, s')) : s' = s := by
+  unfold setSlice at h
+  by_cases hr : reusable [] vals = true
+  · rw [bind_ok (checkReusable_ok vals s hr)] at h
+    have h2 : modifyS del s = (.ok (), del s) := rfl
+    rw [bind_ok h2, bind_ok (detachAll_ok vals (reusable_all_free [] vals hr) (del s))] at h
+    simp [modifyS] at h
+  · rw [bind_err (checkReusable_err vals s hr)] at h
+    exact (Prod.mk.inj h).2.symm
+
+/-- … and it raises exactly when some value is attached elsewhere or occurs twice. -/
+theorem setSlice_raises_iff {σ : Type} (del : σ → σ) (ins : List Donor → σ → σ) (vals : List Donor) (s : σ) :
+    (∃ e s', setSlice del ins vals s = (.error e, s')) ↔ reusable [] vals = false := by
+  unfold setSlice
+  by_cases hr : reusable [] vals = true
+  · have h2 : modifyS del s = (.ok (), del s) := rfl
+    rw [bind_ok (checkReusable_ok vals s hr), bind_ok h2,
+      bind_ok (detachAll_ok vals (reusable_all_free [] vals hr) (del s))]
+    simp [modifyS, hr]
+  · rw [bind_err (checkReusable_err vals s hr)]
+    simp at hr
+    simp [hr]
+
+/-- Witness: with the statement order before the repair (delete, then detach) a refused call has already
+deleted the target range. -/
+theorem setSliceOld_witness :
+    setSliceOld (σ := List Nat) (fun l => l.drop 2) (fun _ l => l) [⟨7, false⟩, ⟨3, true⟩] [1, 2, 3] =
+      (.error "ValueError:reuse", [3]) := rfl
+
+theorem loop_ok {σ : Type} (assign : Nat → Donor → σ → σ) (vals : List Donor)
+    (h : ∀ d ∈ vals, d.attached = false) (i : Nat) (s : σ) :
+    ∃ s', viewSetSliceLoop assign i vals s = (.ok (), s') := by
+  induction vals generalizing i s with
+  | nil => exact ⟨s, rfl⟩
+  | cons v vs ih =>
+    have hv : v.attached = false := h v (by simp)
+    have h1 : detach (σ := σ) v s = (.ok (), s) := by simp [detach, hv, pure]
+    have h2 : modifyS (assign i v) s = (.ok (), assign i v s) := rfl
+    obtain ⟨s', hs'⟩ := ih (fun d hd => h d (by simp [hd])) (i + 1) (assign i v s)
+    exact ⟨s', by rw [viewSetSliceLoop, bind_ok h1, bind_ok h2]; exact hs'⟩
+
+/-- **Slice assignment through a filtered view.** A raise (wrong size, attached or duplicated value) leaves
+the list untouched: no prefix of the batch has been assigned. -/
+theorem refused_unchanged_viewSetSlice {σ : Type} (selected : Nat) (assign : Nat → Donor → σ → σ)
+    (vals : List Donor) (s s' : σ) (e : String)
+    (h : viewSetSlice selected assign vals s = (.error e, s')) : s' = s := by
+  unfold viewSetSlice at h
+  by_cases hsz : selected = vals.length
+  · simp only [hsz, ne_eq, not_true_eq_false, ite_false] at h
+    by_cases hr : reusable [] vals = true
+    · obtain ⟨s2, hs2⟩ := loop_ok assign vals (reusable_all_free [] vals hr) 0 s
+      rw [bind_ok (checkReusable_ok vals s hr), hs2] at h
+      simp at h
+    · rw [bind_err (checkReusable_err vals s hr)] at h
+      exact (Prod.mk.inj h).2.symm
+  · simp only [ne_eq, hsz, not_false_eq_true, ite_true] at h
+    exact (Prod.mk.inj h).2.symm
+
+/-- **Token raw_text setter.** A text the type cannot parse leaves text and value as they were; an accepted
+text makes them describe each other. -/
+theorem refused_unchanged_setRawText {V : Type} (parse : List Char → Option V) (txt : List Char)
+    (t t' : TokState V) (e : String) (h : setRawText parse txt t = (.error e, t')) : t' = t := by
+  unfold setRawText at h
+  cases hp : parse txt with
+  | none => rw [hp] at h; exact (Prod.mk.inj h).2.symm
+  | some v => rw [hp] at h; simp [modifyS] at h
+
+theorem accepted_setRawText {V : Type} (parse : List Char → Option V) (txt : List Char) (t t' : TokState V)
+    (h : setRawText parse txt t = (.ok (), t')) : t'.text = txt ∧ parse t'.text = some t'.value := by
+  unfold setRawText at h
+  cases hp : parse txt with
+  | none => rw [hp] at h; simp [raiseE] at h
+  | some v =>
+    rw [hp] at h
+    have := (Prod.mk.inj h).2
+    subst this
+    exact ⟨rfl, hp⟩
+
+/-- Witness: the order before the repair kept the rejected text. -/
+theorem setRawTextOld_witness :
+    (setRawTextOld (V := Nat) (fun _ => none) ['x'] ⟨['1'], 1⟩).2.text = ['x'] := rfl
+
+/-- **Re-use is refused.** `detach` succeeds only for a node that is the whole of its store; anything that
+lives inside a larger document raises `Cannot reuse node`. -/
+theorem reuse_refused (store : List Nat) (first last : Nat)
+    (h : store.head? ≠ some first ∨ store.getLast? ≠ some last) :
+    detachNode store first last = .error "ValueError:reuse" := by
+  unfold detachNode
+  rcases h with h | h <;> simp [h]
+
+theorem detach_whole_store (store : List Nat) (first last : Nat)
+    (h1 : store.head? = some first) (h2 : store.getLast? = some last) :
+    detachNode store first last = .ok store := by
+  simp [detachNode, h1, h2]
+
+/-- **unclaim_interleaving_comments.** A raise ("comment(s) not found") leaves every item and flag untouched. -/
+theorem refused_unchanged_unclaim (wanted : List Nat) (items items' : List (Nat × Bool × Bool)) (e : String)
+    (h : unclaimInterleaving wanted items = (.error e, items')) : items' = items := by
+  unfold unclaimInterleaving at h
+  simp only at h
+  split at h
+  · exact (Prod.mk.inj h).2.symm
+  · simp at h
+
+/-- The store itself refuses a token that lives in another store ("Token already in a store"); being a
+pure function of the store, the refusal changes nothing (see `C07.spliceCore_rejects_foreign`). -/
+theorem store_rejects_foreign (c : LF) (s : Store) (ts : List Tok) (start stop : Nat × Nat)
+    (hall : ∀ t ∈ ts, t.h = none ∨ ∃ hd, t.h = some hd ∧ hd.sid ≠ s.sid)
+    (hex : ∃ t ∈ ts, ∃ hd, t.h = some hd ∧ hd.sid ≠ s.sid) :
+    spliceCore c s ts start stop = .error "ValueError:already-in-store" :=
+  Autobean.C07.spliceCore_rejects_foreign c s ts start stop hall hex
+
+/-! Non-vacuity: a refused and an accepted batch. -/
+example : ∃ e s', setSlice (σ := List Nat) (fun l => l.drop 1) (fun _ l => l) [⟨7, false⟩, ⟨3, true⟩] [1, 2] = (.error e, s') ∧ s' = [1, 2] :=
+  ⟨"ValueError:reuse", [1, 2], rfl, rfl⟩
+example : setSlice (σ := List Nat) (fun l => l.drop 1) (fun v l => v.map (·.id) ++ l) [⟨7, false⟩, ⟨8, false⟩] [1, 2] = (.ok (), [7, 8, 2]) := rfl
+
 end Autobean.C19
